@@ -363,10 +363,27 @@ def atom_intern_tables(P):
                             break
                         cur = rv.get('op')
                     if cdef and P.B(cdef) is not None:
-                        for b2, t2 in P.B(cdef).calls():
+                        CBc = P.B(cdef)
+                        for b2, t2 in CBc.calls():
                             for a in t2['args']:
                                 if a['k'] == 'c' and 's' in a:
                                     text = a['s']
+                        if text is None and pairs is not None:
+                            # the text is taken from the other table: COMMON_ATOMS[k].0 with a constant k
+                            for b2, j2, st2 in CBc.stmts():
+                                if st2['k'] != '=' or st2['rv']['k'] != 'use' or st2['rv']['op']['k'] not in ('cp', 'mv'):
+                                    continue
+                                pl2 = st2['rv']['op']['pl']
+                                idxs = [e['idx'] for e in (pl2.get('p') or []) if isinstance(e, dict) and 'idx' in e]
+                                base_def = CBc.single_def(pl2['l'])
+                                from_table = base_def is not None and base_def[0] == 's' and base_def[3]['rv']['k'] == 'use' and \
+                                    str(base_def[3]['rv']['op'].get('item', '')).endswith('COMMON_ATOMS')
+                                if from_table and len(idxs) == 1:
+                                    kdef = CBc.single_def(idxs[0])
+                                    if kdef is not None and kdef[0] == 's' and kdef[3]['rv']['k'] == 'use' and 'v' in kdef[3]['rv']['op']:
+                                        k_ = kdef[3]['rv']['op']['v']
+                                        if 0 <= k_ < len(pairs):
+                                            text = pairs[k_][0]
                 out.append(text)
             names = out
     return pairs, names
